@@ -164,6 +164,24 @@ def classify_file(path, ha, hb, ia, ib, lazy_fixed):
     return "violation", det
 
 
+def media_order_by_design(path, ha, hb, ia, ib):
+    """The order of the media types of ONE request body is the order of the body branches in that operation's module (by design, stated):
+    accepted iff the file is the module of an operation with >= 2 bodies and the two versions are a reordering of the same lines."""
+    m = re.fullmatch(r"api/(\w+)/(\w+)\.py", path)
+    if not m or ha is None or hb is None:
+        return False
+    ea = next((x for x in ia["endpoints"] if x["tag"] == m.group(1) and x["module"] == m.group(2)), None)
+    eb = next((x for x in ib["endpoints"] if x["tag"] == m.group(1) and x["module"] == m.group(2)), None)
+    if not ea or not eb or ea.get("n_bodies", 0) < 2 or eb.get("n_bodies", 0) != ea.get("n_bodies"):
+        return False
+    la = _blob[ha].decode("utf-8", "replace").split("\n")
+    lb = _blob[hb].decode("utf-8", "replace").split("\n")
+    def norm(ls):
+        # the Union[...] of the body types in the signature is written in body order on one line: compare it as a set of members
+        return sorted(",".join(sorted(re.split(r",\s*", x.strip()))) for x in ls)
+    return norm(la) == norm(lb)
+
+
 def compare(ta, tb, ia, ib, lazy_fixed):
     """-> list of (path, verdict, detail) for differing files"""
     out = []
@@ -292,15 +310,18 @@ def run(run, tier, replay=None):
     rng = run.rng
     quick = tier == "quick"
     seeds = [0, 1, 2, 3, 4, 5] if quick else list(range(16))
-    n_random = 10 if quick else 60
-    n_perm = 3 if quick else 8            # variants per document incl. the original order
+    n_random = 14 if quick else 60
+    n_perm = 5 if quick else 8            # orders of components.schemas/paths per document incl. the original one; one more variant permutes media types only
+    order_seeds = seeds[:2] if quick else seeds[:6]   # hash seeds under which ALL orders are generated (the other seeds: original order only)
     hook_seeds = [] if quick else [0, 1, 2, 3]
     have_ruff = os.path.exists("/venv/bin/ruff")
-    run.rule = ("documents = fixed corpus (minimal witnesses of lazy_unsorted / sort_case_tie, allOf chain with parents after children) + %d random structured documents "
-                "(gen/docs.py: 3-12 schemas, 1-6 operations, forward refs, allOf parents after children, mutual refs, unions of models, hub models with >=2 lazy imports); "
-                "each document x %d orders of components.schemas/paths (original, reversed, random) x PYTHONHASHSEED in %s, every generation in a fresh interpreter; "
-                "a case = one (document, order, seed) tree compared byte-for-byte with the (original order, first seed) tree; non-trivial = the document has a model with >=2 lazy imports "
-                "or the order differs from the original; distinct by hash of (document, order, seed)." % (n_random, n_perm, seeds))
+    run.rule = ("documents = fixed corpus (minimal witnesses of the known findings, allOf chain with parents after children, one model shared as multipart/json/form body and response by "
+                "operations on different paths, name pressure between schemas and between operations) + %d random structured documents (gen/docs.py: 3-12 schemas, 2-10 operations, several "
+                "operations per path, forward refs, allOf parents after children, mutual refs, unions of models, hub models with >=2 lazy imports, models shared as bodies under different media types "
+                "and as responses, request bodies with several media types, inline body schemas minting class names); each document x %d orders of components.schemas / paths / operations inside a "
+                "path item (original, reversed, random) + 1 variant permuting only the media types inside request bodies, under PYTHONHASHSEED in %s (all orders) and the original order under %s, "
+                "every generation in a fresh interpreter; a case = one (document, order, seed) tree compared byte-for-byte with the (original order, first seed) tree; non-trivial = the document "
+                "has a model with >=2 lazy imports or the order differs from the original; distinct by hash of (document, order, seed)." % (n_random, n_perm, order_seeds, seeds))
     run.assumptions += ["CPython set iteration order is not modelled: the theorem quantifies over all enumeration orders, the oracle samples hash seeds",
                         "str.lower() final-sigma rule not modelled (jinja_sort key); .ruff_cache/ (ruff's own cache) is excluded from the tree comparison",
                         "gen_loops.py's set-typedness inference is name based over annotations (conservative: set-typed in any class => set); diagnostic text (EDiag sites) is outside the byte-tree statement",
@@ -327,11 +348,11 @@ def run(run, tier, replay=None):
         return replay_items(run, items, lazy_fixed)
     doc_list = []   # (name, [variants], feats)
     for name, d in gdocs.corpus():
-        vs = [d, gdocs.permute(d, rng, "reversed")] + [gdocs.permute(d, rng) for _ in range(n_perm - 2)]
+        vs = [d, gdocs.permute(d, rng, "reversed")] + [gdocs.permute(d, rng) for _ in range(n_perm - 2)] + [gdocs.permute(d, rng, "media")]
         doc_list.append((name, vs, ["corpus"]))
     for i in range(n_random):
         d, feats = gdocs.gen_document(rng, pressure=(i % 6 == 5))
-        vs = [d, gdocs.permute(d, rng, "reversed")] + [gdocs.permute(d, rng) for _ in range(n_perm - 2)]
+        vs = [d, gdocs.permute(d, rng, "reversed")] + [gdocs.permute(d, rng) for _ in range(n_perm - 2)] + [gdocs.permute(d, rng, "media")]
         doc_list.append((f"rand{i}", vs, feats))
 
     # ---- generate everything (fresh interpreter per (document, seed))
@@ -341,10 +362,10 @@ def run(run, tier, replay=None):
         futs = {}
         for di, (name, vs, feats) in enumerate(doc_list):
             for s in seeds:
-                futs[ex.submit(run_batch, s, vs, False)] = (di, s, False)
+                futs[ex.submit(run_batch, s, vs if s in order_seeds else vs[:1], False)] = (di, s, False)
             if have_ruff:
                 for s in hook_seeds:
-                    futs[ex.submit(run_batch, s, vs[:3], True)] = (di, s, True)
+                    futs[ex.submit(run_batch, s, vs[:3], True)] = (di, s, True)   # original, reversed, one random order
         for f in cf.as_completed(futs):
             results[futs[f]] = f.result()
     run.extra["generation_wall_s"] = round(time.time() - t0, 1)
@@ -368,14 +389,14 @@ def run(run, tier, replay=None):
             if not hooks and clean:
                 clean_docs += 1
             big_lazy = any(len(m["lazy"]) >= 2 for m in base_res["models"])
-            nvar = len(results[(di, ss[0], hooks)])
             for s in ss:
-                for vi in range(nvar):
+                for vi in range(len(results[(di, s, hooks)])):
+                    media_variant = (not hooks) and vi == len(vs) - 1
                     if vi > 0 and not clean:
                         continue   # order independence is claimed for diagnostic-free documents only
                     res, tree = results[(di, s, hooks)][vi]
                     case = {"doc": name, "order": vi, "seed": s, "hooks": hooks, "dochash": hashlib.sha1(json.dumps(vs[0], sort_keys=True).encode()).hexdigest()[:12]}
-                    run.note_case(case, nontrivial=(big_lazy or vi > 0), kind=("hooks-" if hooks else "") + ("seed" if vi == 0 else "order") + ("" if clean else "-with-diagnostics"))
+                    run.note_case(case, nontrivial=(big_lazy or vi > 0), kind=("hooks-" if hooks else "") + ("seed" if vi == 0 else ("media-order" if media_variant else "order")) + ("" if clean else "-with-diagnostics"))
                     if s == ss[0] and vi == 0:
                         continue
                     if vi > 0 and (bool(res["diag"]) or res["exc"]):
@@ -383,8 +404,11 @@ def run(run, tier, replay=None):
                                                  "hooks": hooks, "diag": res["diag"][:3], "exc": res["exc"]})
                         continue
                     for path, verdict, det in compare(base_tree, tree, base_res, res, lazy_fixed):
+                        if media_variant and verdict == "violation" and media_order_by_design(path, base_tree.get(path), tree.get(path), base_res, res):
+                            hits["media-type-order(by design)"] = hits.get("media-type-order(by design)", 0) + 1
+                            continue
                         payload = {"doc_name": name, "first_differing_file": path, "detail": det, "doc_a": vs[0], "doc_b": vs[vi], "seed_a": ss[0], "seed_b": s, "hooks": hooks,
-                                   "what": "hash seed" if vi == 0 else "order of components.schemas/paths" + (" + hash seed" if s != ss[0] else "")}
+                                   "what": "hash seed" if vi == 0 else ("order of media types inside request bodies" if media_variant else "order of components.schemas/paths") + (" + hash seed" if s != ss[0] else "")}
                         if verdict == "violation":
                             run.violation("oracle", payload)
                             break
